@@ -142,7 +142,7 @@ class Keyed(R.Scripted):
     def __init__(self, draws, case):
         super().__init__(draws, case['gc'].idmap)
         self.case = case; self.tt = case['tt']; self.cap = case['cap']; self.p = case['p']
-        self.age = {}; self.qlog = []; self.plog = []; self.rlog = []; self.calls = []
+        self.age = {}; self.qlog = []; self.plog = []; self.rlog = []; self.calls = []; self.hlog = []
 
     def lookup(self, u, v, a):
         return (self.idmap[u], self.idmap[v], min(a, self.cap - 1)) in self.tt
@@ -201,6 +201,29 @@ class Keyed(R.Scripted):
         return b
 
 
+class patch_has_edge:
+    """percolation_based_discrete_SIR hands H.has_edge to discrete_SIR as the transmission rule:
+    log those calls (step, u, v, answer) so that the iteration order of the run is observable"""
+    def __init__(self, s):
+        self.s = s
+
+    def __enter__(self):
+        import networkx as nx
+        self.nx = nx; self.old = old = nx.Graph.has_edge; s = self.s
+
+        def has_edge(G, u, v):
+            r = old(G, u, v)
+            f = sys._getframe(1)
+            if f.f_code.co_name == 'discrete_SIR' and 't' in f.f_locals:
+                s.hlog.append((len(f.f_locals['t']) - 1, s.idmap[u], s.idmap[v], r))
+            return r
+        nx.Graph.has_edge = has_edge
+
+    def __exit__(self, *a):
+        self.nx.Graph.has_edge = self.old
+        return False
+
+
 def call_impl(EoN, case, s, full=None):
     gc = case['gc']; kind = case['kind']
     kw = dict(initial_infecteds=shape_i0(case), rho=None if case['rho'] is None else float(case['rho']),
@@ -216,7 +239,9 @@ def call_impl(EoN, case, s, full=None):
         return EoN.discrete_SIR(gc.G, test_transmission=s.user_tt, **kw)
     if kind == 'BSIR': return EoN.basic_discrete_SIR(gc.G, p, **kw)
     if kind == 'SIS': return EoN.basic_discrete_SIS(gc.G, p, **kw)
-    if kind == 'PSIR': return EoN.percolation_based_discrete_SIR(gc.G, p, **kw)
+    if kind == 'PSIR':
+        with patch_has_edge(s):
+            return EoN.percolation_based_discrete_SIR(gc.G, p, **kw)
     if kind == 'PERC': return EoN.percolate_network(gc.G, p)
     raise ValueError(kind)
 
@@ -228,7 +253,7 @@ def run_impl(EoN, sim, case, draws, full=None):
         st, val = R.run_impl(lambda: EoN.percolate_network(gc.G, float(case['p'])), s, sim)
     else:
         st, val = R.run_impl(lambda: call_impl(EoN, case, s, full), s, sim)
-    out = {'status': st, 'log': s.log, 'used': s.i, 'qlog': s.qlog, 'plog': s.plog, 'rlog': s.rlog, 'calls': s.calls}
+    out = {'status': st, 'log': s.log, 'used': s.i, 'qlog': s.qlog, 'plog': s.plog, 'rlog': s.rlog, 'calls': s.calls, 'hlog': s.hlog}
     if st == 'EXC': out['err'] = val
     if st == 'OK' and case['kind'] == 'PERC':
         H = val
@@ -340,6 +365,9 @@ def compare(case, m, impl):
         ne = len(impl['qlog'])
         if [(e[1], e[2]) for e in impl['qlog']] != [(e[1], e[2]) for e in mq[:ne]]:
             return 'edges examined by percolate_network: implementation %r, model %r' % (impl['qlog'], mq[:ne])
+        a = sorted((e[0], e[1], e[2]) for e in impl['hlog']); b = sorted(mq[ne:])
+        if 'hist' not in m: a = qsummary(a); b = qsummary(b)
+        if a != b: return 'H.has_edge tests made by discrete_SIR: implementation %r, model %r' % (a, b)
     elif 'hist' in m:
         a = sorted((e[0], e[1], e[2]) for e in impl['qlog']); b = sorted(mq)
         if a != b: return 'transmission tests made (step,u,v): implementation %r, model %r' % (a, b)
